@@ -204,7 +204,7 @@ Theorem deterministic_full :
   forall p1 p2 c m pre cfgf F, run_cli_help_gen p1 c m pre cfgf F = run_cli_help_gen p2 c m pre cfgf F.
 Proof.
   intros H p1 p2 c m pre cfgf F.
-  unfold run_cli_help_gen, run_cli_help, resolver_gen, ordered_opts_gen. rewrite H.
+  unfold run_cli_help_gen, cli_help_of_gen, setup_gen, resolver_gen, ordered_opts_gen. rewrite H.
   change (ordered_opts true p1 c) with (option_strings c).
   change (ordered_opts true p2 c) with (option_strings c).
   apply cli_help_of_true.
@@ -220,7 +220,8 @@ Theorem deterministic_refuted :
 Proof.
   intros H. exists (fun l => l), (@rev string), default_cfg_parser, CRAuto, [], [], W_ab.
   split; [exact valid_id|]. split; [exact valid_rev|].
-  unfold run_cli_help_gen, resolver_gen, ordered_opts_gen. rewrite H. vm_compute. intros E. discriminate E.
+  unfold run_cli_help_gen, cli_help_of_gen, setup_gen, resolver_gen, ordered_opts_gen. rewrite H.
+  vm_compute. intros E. discriminate E.
 Qed.
 
 (* worse: which option strings exist at all depends on the oracle, because the conflict resolver repairs the first
@@ -242,7 +243,7 @@ Theorem accepted_set_refuted :
 Proof.
   intros H. exists (fun l => l), (@rev string), default_cfg_parser, CRAuto, W_clash.
   split; [exact valid_id|]. split; [exact valid_rev|].
-  unfold run_cli_help_gen, resolver_gen, ordered_opts_gen. rewrite H. vm_compute.
+  unfold run_cli_help_gen, cli_help_of_gen, setup_gen, resolver_gen, ordered_opts_gen. rewrite H. vm_compute.
   split; [tauto|]. intros E. repeat (destruct E as [E|E]; [discriminate E|]). exact E.
 Qed.
 
@@ -276,8 +277,8 @@ Section SortUnique.
     - apply Nat.ltb_lt in E. constructor; [exact S|]. constructor; [unfold le_k; lia|].
       eapply Forall_impl; [|exact Fr]. unfold le_k. intros a Ha. lia.
     - apply Nat.ltb_ge in E. constructor; [apply IH; exact Sr|].
-      apply (Permutation_Forall (l := x :: r)); [symmetry; apply ins_by_perm|].
-      constructor; [exact E | exact Fr].
+      rewrite Forall_forall. intros a Ha. apply (Permutation_in _ (ins_by_perm key x r)) in Ha.
+      destruct Ha as [<-|Ha]; [exact E|]. rewrite Forall_forall in Fr. apply Fr. exact Ha.
   Qed.
 
   Lemma fold_ins_sorted l : forall acc, StronglySorted le_k acc ->
@@ -354,9 +355,13 @@ Theorem deterministic_partial p1 p2 c D F :
 Proof.
   intros V1 V2 T. unfold help_entries_gen, help_entries. apply map_ext_in. intros w Hw.
   unfold forest_tie_free in T. rewrite forallb_forall in T. specialize (T w Hw). rewrite forallb_forall in T.
-  unfold group_of. f_equal. rewrite !filter_exposed. apply map_ext_in. intros f Hf.
-  apply filter_In in Hf as [Hf1 Hf2]. specialize (T f Hf1). rewrite Hf2 in T. cbn [negb orb] in T.
-  apply entry_of_tie_free; assumption.
+  unfold group_of. rewrite filter_exposed.
+  assert (E : forall f, In f (filter spec_exposed (hw_fields w)) ->
+                        entry_of arg_help_gen TEMPORARY_TOKEN_gen adds_default_gen strips_token_gen option_order_preserved_gen p1 c D f
+                        = entry_of arg_help_gen TEMPORARY_TOKEN_gen adds_default_gen strips_token_gen option_order_preserved_gen p2 c D f).
+  { intros f Hf. apply filter_In in Hf as [Hf1 Hf2]. specialize (T f Hf1). rewrite Hf2 in T. cbn [negb orb] in T.
+    apply entry_of_tie_free; assumption. }
+  rewrite (map_ext_in _ _ _ E). reflexivity.
 Qed.
 
 (* ---------- `--help` ends with exit status 0, having printed the entries of the set-up forest on stdout ---------- *)
@@ -364,15 +369,11 @@ Theorem exit0 perm c m pre cfgf F F' :
   setup_gen perm c m F = Ok F' ->
   run_cli_help_gen perm c m pre cfgf F
   = mkrun (Exit 0) (Some (SOut, help_entries_gen perm c (layered pre cfgf) F')).
-Proof.
-  intros H. unfold run_cli_help_gen, run_cli_help. unfold setup_gen in H. rewrite H. reflexivity.
-Qed.
+Proof. intros H. unfold run_cli_help_gen. rewrite H. reflexivity. Qed.
 
 Theorem setup_failure perm c m pre cfgf F e :
   setup_gen perm c m F = Err e -> run_cli_help_gen perm c m pre cfgf F = mkrun e None.
-Proof.
-  intros H. unfold run_cli_help_gen, run_cli_help. unfold setup_gen in H. rewrite H. reflexivity.
-Qed.
+Proof. intros H. unfold run_cli_help_gen. rewrite H. reflexivity. Qed.
 
 (* ---------- print_help() through the API: shows what --help shows and leaves later parsing alone ---------- *)
 Definition api_agrees (perm : list string -> list string) (c : cfg) (m : crmode) (pre cfgf : dmap) (F : list hwrap) : Prop :=
@@ -387,9 +388,11 @@ Theorem print_help_inert :
   print_help_applies_config_gen = true ->
   forall perm c m pre cfgf F, api_agrees perm c m pre cfgf F.
 Proof.
-  intros H perm c m pre cfgf F. unfold api_agrees, parse_defaults_gen, parse_defaults, parse_defaults_of,
-    run_api_help_gen, run_api_help, api_help_of, run_cli_help_gen, run_cli_help, cli_help_of, api_defaults.
-  rewrite H. destruct (setup skip_gen (resolver_gen perm c m) F); cbn [r_printed]; split; try reflexivity; exact I.
+  intros H perm c m pre cfgf F. unfold api_agrees, parse_defaults_gen, run_api_help_gen, run_cli_help_gen.
+  destruct (setup_gen perm c m F) as [F'|e].
+  - unfold parse_defaults_of_gen, parse_defaults_of, api_help_of_gen, api_help_of, cli_help_of_gen, cli_help_of, api_defaults.
+    rewrite H. split; reflexivity.
+  - split; [reflexivity | exact I].
 Qed.
 
 Theorem print_help_inert_refuted :
@@ -398,15 +401,23 @@ Theorem print_help_inert_refuted :
 Proof.
   intros H. exists (fun l => l), default_cfg_parser, CRAuto, [], [("a.bb", "7")], W_ab.
   split; [exact valid_id|]. intros [A _]. revert A.
-  unfold parse_defaults_gen, parse_defaults, parse_defaults_of, api_defaults. rewrite H.
+  unfold parse_defaults_gen, parse_defaults_of_gen, parse_defaults_of, api_defaults. rewrite H.
   vm_compute. intros E. discriminate E.
 Qed.
 
 (* PARTIAL: parsers without constructor config files *)
 Theorem print_help_inert_partial perm c m pre F : api_agrees perm c m pre [] F.
 Proof.
-  unfold api_agrees, parse_defaults_gen, parse_defaults, parse_defaults_of,
-    run_api_help_gen, run_api_help, api_help_of, run_cli_help_gen, run_cli_help, cli_help_of, api_defaults, layered.
-  cbn [app]. destruct print_help_applies_config_gen;
-    (destruct (setup skip_gen (resolver_gen perm c m) F); cbn [r_printed]; split; try reflexivity; exact I).
+  unfold api_agrees, parse_defaults_gen, run_api_help_gen, run_cli_help_gen.
+  destruct (setup_gen perm c m F) as [F'|e].
+  - unfold parse_defaults_of_gen, parse_defaults_of, api_help_of_gen, api_help_of, cli_help_of_gen, cli_help_of, api_defaults, layered.
+    cbn [app]. destruct print_help_applies_config_gen; split; reflexivity.
+  - split; [reflexivity | exact I].
 Qed.
+
+(* the forest used by the non-vacuity example of Properties/C16.v *)
+Definition demo_forest : list hwrap :=
+  [mkhw "K1" ["a"] [mkhf (mkfw ["a"] "bb" "" ["cc"] false) true true "the value" (Some "1");
+                    mkhf (mkfw ["a"] "hid" "" [] false) true false "secret" (Some "9");
+                    mkhf (mkfw ["a"] "x" "" [] false) true true "" None]].
+
